@@ -347,7 +347,7 @@ fn gen_initial(rng: &mut Rng, sys: bool) -> Ver {
     let ents: Vec<(u64, u64)> = layout.iter().flat_map(|(ns, es)| es.iter().map(move |e| (*ns, *e))).collect();
     Ver { blocks: layout.iter().map(|(ns, es)| (*ns, es.iter().map(|e| gen_entity(rng, *e, &ents)).collect())).collect() }
 }
-fn free_field_name(e: &ED) -> Option<u64> { (1..=12).find(|n| !e.fields.iter().any(|f| f.name == *n)) }
+fn free_field_name(e: &ED) -> Option<u64> { (1..=200).find(|n| !e.fields.iter().any(|f| f.name == *n)) }
 fn pick_entity(rng: &mut Rng, v: &Ver) -> Option<(usize, usize)> {
     let c: Vec<(usize, usize)> = v.blocks.iter().enumerate().flat_map(|(b, (_, eds))| (0..eds.len()).map(move |i| (b, i))).collect();
     if c.is_empty() { None } else { Some(*rng.pick(&c)) }
@@ -408,7 +408,7 @@ fn invalid_edit(rng: &mut Rng, v: &mut Ver, sys: bool) -> &'static str {
         12 => { let e = &mut v.blocks[b].1[i]; let f = e.fields[0].clone(); e.fields.push(f); "duplicate_field" }
         13 => { let e = &mut v.blocks[b].1[i]; if let Some(n) = free_field_name(e) { e.fields.push(FD { name: n, ty: Ty::Ent(v_unknown_ns(sys), 9), default: None, nullable: true, depr: false }); return "unknown_reference"; } "none" }
         14 => { let e = gen_entity(rng, 1, &[]); v.blocks.push((if sys { 2 } else { 1 }, vec![e])); "foreign_namespace" }
-        15 => { let e = &mut v.blocks[b].1[i]; let bad = e.fields.iter().find(|f| is_ref(&f.ty) || f.ty == Ty::Json).map(|f| f.name).unwrap_or(49); e.idx.push(vec![bad]); "bad_index" }
+        15 => { let e = &mut v.blocks[b].1[i]; let bad = e.fields.iter().find(|f| is_ref(&f.ty) || f.ty == Ty::Json).map(|f| f.name).unwrap_or(499); e.idx.push(vec![bad]); "bad_index" }
         16 => { let e = &mut v.blocks[b].1[i]; if let Some(ix) = e.idx.first().cloned() { e.idx.push(ix); return "duplicate_index"; } let ix = vec![SYSF]; e.idx.push(ix.clone()); e.idx.push(ix); "duplicate_index" }
         17 => { let e = &mut v.blocks[b].1[i]; let n = SYSF + rng.below(6); if !e.fields.iter().any(|f| f.name == n) { e.fields.push(FD { name: n, ty: Ty::Int, default: None, nullable: true, depr: false }); return "system_field_name"; } "none" }
         _ => { v.blocks.insert(0, (6, vec![ED { name: 1, depr: false, ft: true, fields: vec![FD { name: 1, ty: Ty::Int, default: None, nullable: true, depr: false }], idx: vec![] }])); "namespace_in_front" }
@@ -467,10 +467,62 @@ fn fd(name: u64, ty: Ty, default: Option<u64>, nullable: bool) -> FD { FD { name
 fn ed(name: u64, fields: Vec<FD>) -> ED { ED { name, depr: false, ft: true, fields, idx: vec![] } }
 fn ver(blocks: Vec<(u64, Vec<ED>)>) -> Ver { Ver { blocks } }
 
+/// an entity with n fields f1..fn (cheap scalars)
+fn wide_entity(rng: &mut Rng, name: u64, n: u64) -> ED {
+    let fields = (1..=n).map(|k| match rng.below(4) { 0 => fd(k, Ty::Int, Some(rng.below(3)), false), 1 => fd(k, Ty::Int, None, true), 2 => fd(k, Ty::Str, Some(rng.below(3)), false), _ => fd(k, Ty::Str, None, true) }).collect();
+    ed(name, fields)
+}
+fn add_wide_fields(rng: &mut Rng, e: &mut ED, k: u64) {
+    for _ in 0..k { let n = free_field_name(e).unwrap(); e.fields.push(if rng.chance(1, 2) { fd(n, Ty::Str, None, true) } else { fd(n, Ty::Int, Some(rng.below(3)), false) }); }
+}
+/// wide entities: field identifiers are compared as numbers, also when several fields added by one
+/// version get identifiers on both sides of 99 / 100 (the entity then has 67 or 68 fields)
+fn gen_wide_sequence(rng: &mut Rng) -> Vec<(bool, Ver)> {
+    let n = 60 + rng.below(7);                       // 60..66 fields: identifiers 32..97 at most
+    let mut v = ver(vec![(2, vec![wide_entity(rng, 1, n), ed(2, vec![fd(1, Ty::Str, None, false)])])]);
+    let mut seq = vec![(false, v.clone())];
+    if rng.chance(1, 2) && n < 66 { add_wide_fields(rng, &mut v.blocks[0].1[0], 1); seq.push((false, v.clone())); }
+    let count = v.blocks[0].1[0].fields.len() as u64;
+    let k = (69 - count) + rng.below(3);             // this version's new fields get 99 and 100 (and more)
+    add_wide_fields(rng, &mut v.blocks[0].1[0], k);
+    seq.push((false, v.clone()));
+    if rng.chance(2, 3) { seq.push((false, v.clone())); }
+    if rng.chance(1, 2) { let k2 = 1 + rng.below(3); add_wide_fields(rng, &mut v.blocks[0].1[0], k2); seq.push((false, v.clone())); seq.push((false, v.clone())); }
+    seq
+}
+/// a version the data model rules accept and the database refuses: an entity gets a twin whose
+/// name differs by letter case only, both with the same index
+fn clash_version(rng: &mut Rng, base: &Ver) -> Option<Ver> {
+    let mut v = base.clone();
+    let c: Vec<(usize, usize)> = v.blocks.iter().enumerate().flat_map(|(b, (_, eds))| (0..eds.len()).map(move |i| (b, i))).filter(|(b, i)| v.blocks[*b].1[*i].name < 1000).collect();
+    if c.is_empty() { return None; }
+    let (b, i) = *rng.pick(&c);
+    if v.blocks[b].1[i].idx.is_empty() { let ix = gen_index(rng, &v.blocks[b].1[i]); v.blocks[b].1[i].idx.push(ix); }
+    let mut twin = v.blocks[b].1[i].clone();
+    twin.name += 1000;
+    let ns = v.blocks[b].0;
+    if all_ents(&v).contains(&(ns, twin.name)) { return None; }
+    v.blocks.push((ns, vec![twin]));
+    Some(v)
+}
+
 fn directed_bare() -> Vec<(&'static str, Vec<(bool, Ver)>)> {
     let s = |n| fd(n, Ty::Str, None, false);
     let sn = |n| fd(n, Ty::Str, None, true);
     let mut out = vec![];
+    // 66 fields (identifiers 32..97), then four at once: 98, 99, 100, 101 in the order of the text; the same text again;
+    // then two more; compared with adding them one at a time (same identifiers)
+    {
+        let w0 = ver(vec![(2, vec![ed(1, (1..=66).map(|k| sn(k)).collect())])]);
+        let mut w1 = w0.clone(); for k in [70u64, 67, 69, 68] { w1.blocks[0].1[0].fields.push(sn(k)); }
+        let mut w2 = w1.clone(); w2.blocks[0].1[0].fields.push(sn(72)); w2.blocks[0].1[0].fields.push(sn(71));
+        out.push(("directed_wide_fields_across_100", vec![(false, w0.clone()), (false, w1.clone()), (false, w1.clone()), (false, w2.clone()), (false, w2.clone())]));
+        let mut seq = vec![(false, w0.clone())];
+        let mut w = w0.clone();
+        for k in [70u64, 67, 69, 68, 72, 71] { w.blocks[0].1[0].fields.push(sn(k)); seq.push((false, w.clone())); }
+        seq.push((false, w2.clone()));      // the version reached in one go above: same text, must be accepted unchanged
+        out.push(("directed_wide_fields_one_at_a_time", seq));
+    }
     // former K1 (fixed a0ddb65): three fields at once, then the same text again (what a restart does)
     let v1 = ver(vec![(2, vec![ed(1, vec![s(1)])])]);
     let v2 = ver(vec![(2, vec![ed(1, vec![s(1), sn(4), sn(2), sn(3)])])]);
@@ -558,7 +610,7 @@ fn expected_new_value(f: &FD) -> Value {
     }
 }
 
-struct Baseline { ns: u64, e: u64, fields: Vec<u64>, rows: Value }
+struct Baseline { ns: u64, e: u64, fields: Vec<u64>, qfields: Vec<u64>, rows: Value }
 
 async fn inst_case(kind: &str, k: usize, seq: &[(bool, Ver)], stats: &mut InstStats) -> Case {
     let mut it = Interner { tags: HashMap::new() };
@@ -572,6 +624,8 @@ async fn inst_case(kind: &str, k: usize, seq: &[(bool, Ver)], stats: &mut InstSt
     let mut obs: Vec<i64> = vec![];
     let mut tabs: Vec<OTab> = vec![];
     let mut baselines: Vec<Baseline> = vec![];
+    let mut baseline_done = false;
+    let mut baseline_failed = false;
     let mut log = vec![];
     for (is_start, s) in &steps {
         let api_ok;
@@ -579,10 +633,10 @@ async fn inst_case(kind: &str, k: usize, seq: &[(bool, Ver)], stats: &mut InstSt
             if let Some(old) = svc.take() { drop(old); tokio::time::sleep(std::time::Duration::from_millis(30)).await; }
             match GraphDatabaseService::start("c15", &s.text, &secret, &random32(), path.clone(), &Configuration::default(), EventService::new()).await {
                 Ok((sv, _, _)) => { svc = Some(sv); api_ok = true; }
-                Err(e) => { api_ok = false; log.push(format!("start refused: {}", e)); }
+                Err(e) => { api_ok = false; let m = format!("{}", e); if m.contains("index") { stats.storage_refusals += 1; } log.push(format!("start refused: {}", m)); }
             }
         } else {
-            match svc.as_ref() { Some(sv) => { let r = sv.update_data_model(&s.text).await; api_ok = r.is_ok(); if let Err(e) = r { log.push(format!("update refused: {}", e)); } }
+            match svc.as_ref() { Some(sv) => { let r = sv.update_data_model(&s.text).await; api_ok = r.is_ok(); if let Err(e) = r { let m = format!("{}", e); if m.contains("index") { stats.storage_refusals += 1; } log.push(format!("update refused: {}", m)); } }
                                  None => { api_ok = false; } }
         }
         obs.push(api_ok as i64);
@@ -591,25 +645,41 @@ async fn inst_case(kind: &str, k: usize, seq: &[(bool, Ver)], stats: &mut InstSt
             let mem = observe(&serde_json::from_str(&sv.datamodel().await.unwrap()).unwrap(), &it.tags, true);
             let stored = observe(&serde_json::from_str(&read_stored(sv).await.unwrap()).unwrap(), &it.tags, true);
             // rows: written once, after the first start; read back after every step
-            if baselines.is_empty() {
+            if !baseline_done {
+                baseline_done = true;
                 for (ns, eds) in &s.ver.blocks { for e in eds {
+                    // entities whose rows can be written with plain scalar values (has_rows in Run_C15.v)
                     let fs: Vec<&FD> = e.fields.iter().filter(|f| row_value(&f.ty, 0).is_some()).collect();
-                    if fs.is_empty() { continue; }
+                    if fs.is_empty() || e.fields.iter().any(|f| matches!(f.ty, Ty::B64 | Ty::Json) && !f.nullable && f.default.is_none()) { continue; }
                     for row in 0..3u64 {
                         let body: Vec<String> = fs.iter().map(|f| format!("{}:{}", field_name(f.name), row_value(&f.ty, row).unwrap())).collect();
                         let m = format!("mutate {{ {} {{ {} }} }}", qual(*ns, e.name), body.join(" "));
-                        if let Err(err) = sv.mutate_raw(&m, None).await { log.push(format!("row not written: {} ({})", m, err)); }
+                        if let Err(err) = sv.mutate_raw(&m, None).await { baseline_failed = true; log.push(format!("row not written: {} ({})", m, err)); }
                     }
-                    let q = format!("query {{ {} {{ id {} }} }}", qual(*ns, e.name), fs.iter().map(|f| field_name(f.name)).collect::<Vec<_>>().join(" "));
+                    // (a query of more than 63 fields is refused by SQLite's json_object: read 20 of them)
+                    let qfields: Vec<u64> = fs.iter().map(|f| f.name).take(20).collect();
+                    let q = format!("query {{ {} {{ id {} }} }}", qual(*ns, e.name), qfields.iter().map(|f| field_name(*f)).collect::<Vec<_>>().join(" "));
                     let res = sv.query(&q, None).await.unwrap_or_default();
                     let rows = sorted_rows(&res, &qual(*ns, e.name));
-                    if rows.as_array().map(|a| a.len()) != Some(3) { log.push(format!("baseline of {} has not 3 rows: {}", qual(*ns, e.name), res)); }
-                    baselines.push(Baseline { ns: *ns, e: e.name, fields: fs.iter().map(|f| f.name).collect(), rows });
+                    if rows.as_array().map(|a| a.len()) != Some(3) { baseline_failed = true; log.push(format!("baseline of {} has not 3 rows: {}", qual(*ns, e.name), res)); }
+                    baselines.push(Baseline { ns: *ns, e: e.name, fields: e.fields.iter().map(|f| f.name).collect(), qfields, rows });
                 } }
             }
-            let mut rows_ok = true;
+            let mut rows_ok = !baseline_failed;
+            if !api_ok {
+                // a refused version has no effect on the running instance: the entities it would have
+                // added do not exist (a row for them is refused)
+                for (ns, eds) in &s.ver.blocks { for e in eds {
+                    if stored.nss.iter().any(|n| n.name == *ns && n.ents.iter().any(|x| x.name == e.name)) { continue; }
+                    let body: Vec<String> = e.fields.iter().filter_map(|f| row_value(&f.ty, 7).map(|v| format!("{}:{}", field_name(f.name), v))).collect();
+                    if body.is_empty() { continue; }
+                    let m = format!("mutate {{ {} {{ {} }} }}", qual(*ns, e.name), body.join(" "));
+                    stats.probes_new_entity += 1;
+                    if sv.mutate_raw(&m, None).await.is_ok() { rows_ok = false; log.push(format!("an entity of the refused version accepts rows: {}", m)); }
+                } }
+            }
             for b in &baselines {
-                let q = format!("query {{ {} {{ id {} }} }}", qual(b.ns, b.e), b.fields.iter().map(|f| field_name(*f)).collect::<Vec<_>>().join(" "));
+                let q = format!("query {{ {} {{ id {} }} }}", qual(b.ns, b.e), b.qfields.iter().map(|f| field_name(*f)).collect::<Vec<_>>().join(" "));
                 match sv.query(&q, None).await {
                     Ok(res) => { if sorted_rows(&res, &qual(b.ns, b.e)) != b.rows { rows_ok = false; log.push(format!("rows of {} changed: {}", qual(b.ns, b.e), res)); } }
                     Err(err) => { rows_ok = false; log.push(format!("rows of {} unreadable: {}", qual(b.ns, b.e), err)); }
@@ -650,7 +720,7 @@ async fn inst_case(kind: &str, k: usize, seq: &[(bool, Ver)], stats: &mut InstSt
            meta: json!({"steps": steps.len(), "log": log, "texts": steps.iter().map(|s| s.1.text.clone()).collect::<Vec<_>>() }) }
 }
 #[derive(Default)]
-struct InstStats { steps: usize, failed_starts: usize, rows_not_ok: usize, mem_differs_from_stored: usize }
+struct InstStats { steps: usize, failed_starts: usize, rows_not_ok: usize, mem_differs_from_stored: usize, probes_new_entity: usize, storage_refusals: usize }
 
 fn directed_inst() -> Vec<(&'static str, Vec<(bool, Ver)>)> {
     let s = |n| fd(n, Ty::Str, None, false);
@@ -673,6 +743,27 @@ fn directed_inst() -> Vec<(&'static str, Vec<(bool, Ver)>)> {
     for _ in 0..2 { out.push(("inst_k2_new_field_kept_after_refusal", vec![(true, v1.clone()), (false, bad2.clone()), (true, v1.clone())])); }
     // refused at start: no instance; the store is intact
     out.push(("inst_refused_at_start", vec![(true, v1.clone()), (true, bad), (true, v1.clone()), (false, v2.clone())]));
+    // open finding 4: an entity with rows gets a Boolean field with a default
+    let mut vb = v1.clone(); vb.blocks[0].1[0].fields.push(fd(3, Ty::Bool, Some(1), false));
+    out.push(("inst_bool_default_on_old_rows", vec![(true, v1.clone()), (false, vb.clone()), (true, vb)]));
+    // refused by the database when the model is stored: E1 and e1 (same name but for the case), both
+    // with index(f1): at run time, then an accepted version, then at start
+    let mut x1 = ver(vec![(2, vec![ed(1, vec![s(1), i(2, 1)])])]); x1.blocks[0].1[0].idx = vec![vec![1]];
+    let mut xc = x1.clone(); { let mut t = x1.blocks[0].1[0].clone(); t.name = 1001; xc.blocks[0].1.push(t); }
+    let mut x3 = x1.clone(); x3.blocks[0].1.push(ed(2, vec![s(1)]));
+    let mut x4 = x3.clone(); x4.blocks[0].1[1].fields.push(sn(2));
+    out.push(("inst_storage_refusal_entity_case", vec![(true, x1.clone()), (false, xc.clone()), (false, x3.clone()), (true, xc.clone()), (true, x3.clone()), (false, xc), (false, x4)]));
+    // the same with two fields f3 / F3 of one entity
+    let mut y2 = x1.clone(); y2.blocks[0].1[0].fields.push(sn(3)); y2.blocks[0].1[0].fields.push(sn(503)); y2.blocks[0].1[0].idx = vec![vec![1], vec![3], vec![503]];
+    let mut y3 = y2.clone(); y3.blocks[0].1[0].idx = vec![vec![1], vec![3]];
+    out.push(("inst_storage_refusal_field_case", vec![(true, x1.clone()), (false, y2.clone()), (false, y3.clone()), (true, y2), (true, y3)]));
+    // wide entity on a real instance: four fields across 99 / 100 at run time, the same again, restart
+    {
+        let w0 = ver(vec![(2, vec![ed(1, (1..=66).map(|k| sn(k)).collect())])]);
+        let mut w1 = w0.clone(); for k in [70u64, 67, 69, 68] { w1.blocks[0].1[0].fields.push(sn(k)); }
+        let mut w2 = w1.clone(); w2.blocks[0].1[0].fields.push(i(72, 1)); w2.blocks[0].1[0].fields.push(sn(71));
+        out.push(("inst_wide_fields_across_100", vec![(true, w0), (false, w1.clone()), (false, w1.clone()), (true, w1), (true, w2.clone()), (true, w2)]));
+    }
     out
 }
 
@@ -693,13 +784,34 @@ async fn main() {
     for _ in 0..n_inst_random {
         // compatible histories only (scalars that can be written and read back), alternately at run time and at restart
         let seq = gen_sequence(&mut rng, 0, &mut edits_inst);
-        let seq: Vec<(bool, Ver)> = seq.into_iter().filter(|(sys, _)| !*sys).enumerate().map(|(i, (_, v))| (i == 0 || rng.chance(1, 2), v)).collect();
-        let c = inst_case("inst_random_compatible", k, &seq, &mut ist).await; out.push(c); k += 1;
+        let mut seq: Vec<(bool, Ver)> = seq.into_iter().filter(|(sys, _)| !*sys).enumerate().map(|(i, (_, v))| (i == 0 || rng.chance(1, 2), v)).collect();
+        // a version the database refuses, at run time or at start, between two accepted ones
+        let mut kind = "inst_random_compatible";
+        if rng.chance(2, 3) {
+            let at = 1 + rng.below(seq.len() as u64) as usize;
+            if let Some(cv) = clash_version(&mut rng, &seq[at - 1].1) {
+                seq.insert(at, (rng.chance(1, 3), cv));
+                if seq[at].0 && at + 1 < seq.len() { seq[at + 1].0 = true; }   // a refused start leaves no instance: start again
+                kind = "inst_random_storage_refusal";
+            }
+        }
+        let c = inst_case(kind, k, &seq, &mut ist).await; out.push(c); k += 1;
     }
+    for _ in 0..scale(1, 8) {
+        let seq: Vec<(bool, Ver)> = gen_wide_sequence(&mut rng).into_iter().enumerate().map(|(i, (_, v))| (i == 0 || rng.chance(1, 2), v)).collect();
+        let c = inst_case("inst_random_wide", k, &seq, &mut ist).await; out.push(c); k += 1;
+    }
+
     // random bare histories
-    let n = scale(300, 6000);
+    let n = scale(240, 6000);
+    let wide_every = scale(30, 30);
     let mut edits = BTreeMap::new();
     for i in 0..n {
+        if i % wide_every == 7 {
+            // wide entities on bare values (spread over the run: their terms are large)
+            let seq = gen_wide_sequence(&mut rng);
+            let c = bare_case("random_wide_entity", &seq, 2, &mut rng, &mut stats); out.push(c);
+        }
         let mode = match i % 10 { 0..=4 => 0, 5..=6 => 1, _ => 2 };
         let seq = gen_sequence(&mut rng, mode, &mut edits);
         let kind = ["random_compatible", "random_fields_at_once", "random_invalid_edits"][mode as usize];
@@ -707,12 +819,13 @@ async fn main() {
         if i + 1 == n {
             c.meta["generator"] = json!({"steps": stats.steps, "verdicts_peer0": stats.verdicts.iter().map(|(k, v)| (k.to_string(), *v)).collect::<BTreeMap<_, _>>(),
                 "refused_steps_that_changed_the_model": stats.changed_on_refusal, "edits": edits.iter().map(|(k, v)| (k.to_string(), *v)).collect::<BTreeMap<_, _>>(),
-                "instances": {"steps": ist.steps, "failed_starts": ist.failed_starts, "rows_not_ok": ist.rows_not_ok, "in_memory_differs_from_stored_after_update": ist.mem_differs_from_stored}});
+                "instances": {"steps": ist.steps, "failed_starts": ist.failed_starts, "rows_not_ok": ist.rows_not_ok, "in_memory_differs_from_stored_after_update": ist.mem_differs_from_stored,
+                    "refused_by_the_database": ist.storage_refusals, "row_probes_into_entities_of_refused_versions": ist.probes_new_entity}});
         }
         out.push(c);
     }
-    eprintln!("c15: {} cases; steps {}, verdicts {:?}, refused-but-changed {}; instances: steps {}, failed starts {}, rows not ok {}, mem!=stored {}",
-        out.n, stats.steps, stats.verdicts, stats.changed_on_refusal, ist.steps, ist.failed_starts, ist.rows_not_ok, ist.mem_differs_from_stored);
+    eprintln!("c15: {} cases; steps {}, verdicts {:?}, refused-but-changed {}; instances: steps {}, failed starts {}, rows not ok {}, mem!=stored {}, storage refusals {}, new-entity probes {}",
+        out.n, stats.steps, stats.verdicts, stats.changed_on_refusal, ist.steps, ist.failed_starts, ist.rows_not_ok, ist.mem_differs_from_stored, ist.storage_refusals, ist.probes_new_entity);
     out.finish();
     let work = std::env::var("VERIF_WORK").unwrap_or("/verif/work".into());
     let _ = std::fs::remove_dir_all(format!("{}/C15/inst_tmp", work));
